@@ -203,8 +203,10 @@ func u64Abs(v, dflt, max uint64) string {
 	return fmt.Sprintf("=%d", v)
 }
 
-func durOf(name string, dflt time.Duration) time.Duration { return time.Duration(i64Of(name, int64(dflt))) }
-func durAbs(v, dflt time.Duration) string                  { return i64Abs(int64(v), int64(dflt)) }
+func durOf(name string, dflt time.Duration) time.Duration {
+	return time.Duration(i64Of(name, int64(dflt)))
+}
+func durAbs(v, dflt time.Duration) string { return i64Abs(int64(v), int64(dflt)) }
 
 // guard runs f and reports whether it panicked.
 func guard(f func()) (panicked bool, msg string) {
